@@ -152,19 +152,38 @@ def cell_from_json(j):
 
 
 # ------------------------------------------------------------------------------------------ rows (Python side)
-def row_key(c):
-    return (ct.canon_meta(c.metadata, ordered=True), c.period_start, c.period_end)
+def same_row(a, b):
+    """same (period, metadata) under Python `==` -- decided WITHOUT hashing (Metadata.__hash__ is one of
+    the things under test)."""
+    return a.period_start == b.period_start and a.period_end == b.period_end and a.metadata == b.metadata
 
 
 def rows_of(cells):
-    """rows in first-occurrence order, each sorted by (evaluation date, prev)."""
-    rows: dict = {}
+    """rows in first-occurrence order (grouped by `==`), each sorted by (evaluation date, prev)."""
+    rows: list = []
     for c in cells:
-        rows.setdefault(row_key(c), []).append(c)
-    out = []
-    for k, r in rows.items():
-        out.append(sorted(r, key=lambda c: (c.evaluation_date, getattr(c, "prev_evaluation_date", D.min))))
-    return out
+        for r in rows:
+            if same_row(r[0], c):
+                r.append(c)
+                break
+        else:
+            rows.append([c])
+    return [sorted(r, key=lambda c: (c.evaluation_date, getattr(c, "prev_evaluation_date", D.min))) for r in rows]
+
+
+def py_meta_key(m):
+    """Metadata up to Python `==`: detail order irrelevant, 7 == 7.0 == True+6."""
+    def nv(v):
+        if v is None:
+            return ("none",)
+        if isinstance(v, (bool, int, float, np.integer, np.floating)):
+            return ("num", float(v))
+        if isinstance(v, datetime.date):
+            return ("date", v.isoformat())
+        return ("str", v)
+    return (m.risk_basis, m.country, m.currency, m.reinsurance_basis, m.loss_definition, nv(m.per_occurrence_limit),
+            tuple(sorted((k, nv(v)) for k, v in m.details.items())),
+            tuple(sorted((k, nv(v)) for k, v in m.loss_details.items())))
 
 
 def is_arr(v):
@@ -211,12 +230,17 @@ def std_inc_row(row):
             and all(link_compat(a.values, b.values, True) for a, b in zip(row, row[1:])))
 
 
+PYMETA = False      # set per case: compare metadata up to Python == (streams with equal-but-distinct objects)
+
+
 def canon_sorted(cells, cls=None):
     out = []
     for c in cells:
         t = ct.canon_cell(c, ordered=False)
         if cls:
             t = (cls,) + t[1:]
+        if PYMETA:
+            t = t[:5] + (py_meta_key(c.metadata),) + t[6:]
         out.append(t)
     return out
 
@@ -244,7 +268,7 @@ def oracle_cum(t, inc, back):
     if len(inc[1].cells) != len(t.cells) or len(irows) != len(rows):
         return [f"to_incremental: {len(t.cells)} cells in {len(rows)} rows -> {len(inc[1].cells)} cells in {len(irows)} rows"]
     for r, ir in zip(rows, irows):
-        if len(r) != len(ir) or row_key(r[0]) != row_key(ir[0]):
+        if len(r) != len(ir) or not same_row(r[0], ir[0]):
             bad.append("row lengths / keys differ")
             break
         for i, (c, o) in enumerate(zip(r, ir)):
@@ -287,7 +311,7 @@ def oracle_inc(x, cum, back):
             acc = None
             for i, (c, o) in enumerate(zip(r, cr)):
                 if type(o).__name__ != "CumulativeCell" or o.evaluation_date != c.evaluation_date \
-                        or row_key(o) != row_key(c) or set(o.values) != set(c.values):
+                        or not same_row(o, c) or set(o.values) != set(c.values):
                     bad.append(f"cumulative cell {i} of row {c.period_start}: class/coordinates/keys differ")
                     break
                 acc = dict(c.values) if acc is None else {
@@ -425,6 +449,92 @@ def exotic(rng, cells, basis):
     return others + r, "exotic:" + kind
 
 
+TOP_ATTRS = ("risk_basis", "country", "currency", "reinsurance_basis", "loss_definition", "per_occurrence_limit")
+
+
+def meta_kwargs(m):
+    return dict(risk_basis=m.risk_basis, country=m.country, currency=m.currency,
+                reinsurance_basis=m.reinsurance_basis, loss_definition=m.loss_definition,
+                per_occurrence_limit=m.per_occurrence_limit, details=dict(m.details),
+                loss_details=dict(m.loss_details))
+
+
+def eq_variant(rng, m, extra):
+    """A fresh Metadata object that is `==` m (plus the `extra` details): detail keys inserted in another
+    order, integral numbers as int or float."""
+    from bermuda import Metadata
+
+    def flip(v):
+        if isinstance(v, bool) or v is None:
+            return v
+        if isinstance(v, int) and rng.random() < 0.5:
+            return float(v)
+        if isinstance(v, float) and v == int(v) and rng.random() < 0.5:
+            return int(v)
+        return v
+
+    kw = meta_kwargs(m)
+    det = list({**kw["details"], **extra}.items())
+    rng.shuffle(det)
+    ld = list(kw["loss_details"].items())
+    rng.shuffle(ld)
+    kw["details"] = {k: flip(v) for k, v in det}
+    kw["loss_details"] = {k: flip(v) for k, v in ld}
+    kw["per_occurrence_limit"] = flip(kw["per_occurrence_limit"])
+    return Metadata(**kw)
+
+
+def eqmeta_cells(rng, cells):
+    """Every cell gets its own equal-but-distinct Metadata object."""
+    extra = {"zz_a": "x", "zz_n": 3}
+    return [rebuild(c, metadata=eq_variant(rng, c.metadata, extra)) for c in cells]
+
+
+def direct_meta(m, defs):
+    from bermuda import Metadata
+
+    kw = meta_kwargs(m)
+    for k, v in defs.items():
+        if k in TOP_ATTRS:
+            kw[k] = v
+        else:
+            kw["details"][k] = v
+    return Metadata(**kw)
+
+
+def run_sequence(recipe):
+    """hash first / derive_metadata / append a valuation with directly built equal metadata.
+    recipe = {"old": [cell json], "prehash": how, "defs": {...}, "new": [cell json]} -> Triangle"""
+    from bermuda import Triangle
+
+    with warnings.catch_warnings():
+        warnings.simplefilter("ignore")
+        old = Triangle([cell_from_json(j) for j in recipe["old"]])
+        how = recipe["prehash"]
+        if how == "convert":
+            old.to_incremental()
+        elif how == "slices":
+            _ = old.slices, old.metadata
+        elif how == "hash":
+            _ = [hash(c.metadata) for c in old.cells]
+        tagged = old.derive_metadata(**recipe["defs"])
+        new_cells = [cell_from_json(j) for j in recipe["new"]]
+        new_cells = [rebuild(c, metadata=direct_meta(c.metadata, recipe["defs"])) for c in new_cells]
+        return Triangle(list(tagged.cells) + new_cells)
+
+
+def make_sequence(rng, cells):
+    rows = rows_of(cells)
+    old_cells = [c for r in rows for c in (r[:-1] if len(r) >= 2 else r)]
+    new_src = [r[-1] for r in rows if len(r) >= 2]
+    if not new_src:
+        return None
+    defs = rng.choice([{"line": "auto"}, {"currency": "CHF"}, {"line": "auto", "n2": 5}, {"country": "FR", "tag": "t"}])
+    recipe = {"old": [cell_to_json(c) for c in old_cells], "prehash": rng.choice(["convert", "slices", "hash", "none"]),
+              "defs": defs, "new": [cell_to_json(c) for c in new_src]}
+    return recipe
+
+
 def gen_cases(ctx, n_total):
     """-> list of dicts {label, basis, cells(list), info}"""
     from bermuda import Cell, Triangle
@@ -442,6 +552,10 @@ def gen_cases(ctx, n_total):
         basis = "inc" if k % 3 == 0 else "cum"
         u = rng.random()
         stream = "malformed" if u < (0.45 if basis == "inc" else 0.12) else ("exotic" if u > 0.88 else "valid")
+        if stream == "valid" and u > 0.76:
+            stream = "eqmeta"
+        elif stream == "valid" and u > 0.70 and basis == "cum":
+            stream = "seq"
         n_slices = rng.choice([1, 1, 2, 3, 4])
         same_fields = rng.random() < 0.75
         fields = rng.sample(FIELDS, rng.randint(1, 3))
@@ -470,35 +584,51 @@ def gen_cases(ctx, n_total):
             if m is None:
                 continue
             cells, label = m
+        elif stream == "eqmeta":
+            cells, label = eqmeta_cells(rng, cells), "eqmeta"
+            if rng.random() < 0.3:
+                m = malform(rng, cells, basis)
+                if m is not None:
+                    cells, label = m[0], "eqmeta+" + m[1]
+        recipe = None
+        if stream == "seq":
+            recipe = make_sequence(rng, cells)
+            if recipe is None:
+                continue
+            label = "seq"
         rng.shuffle(cells)
         with warnings.catch_warnings():
             warnings.simplefilter("ignore")
             try:
-                t = Triangle(cells)
+                t = run_sequence(recipe) if recipe else Triangle(cells)
             except Exception:  # noqa: BLE001
                 continue
         info = dict(info)
         info["same_fields"] = same_fields
         info["cls"] = type(cells[0]).__name__
-        cases.append({"label": label, "basis": basis, "tri": t, "info": info})
+        cases.append({"label": label, "basis": basis, "tri": t, "info": info, "recipe": recipe})
     return cases
 
 
-def metadata_print_consistent(t):
-    """`==` on the metadata of the triangle must coincide with equality of the printed terms."""
+def metadata_print_consistent(t, strict=True):
+    """Metadata printed identically must be `==`; for the standard streams (strict) also the converse, so
+    that grouping by `==` and by structure coincide (hypothesis meta_separated of the theorems)."""
     ms = []
     for c in t.cells:
         if not any(c.metadata is m for m in ms):
             ms.append(c.metadata)
     for i, a in enumerate(ms):
         for b in ms[i + 1:]:
-            if (a == b) != (ct.cmeta(a) == ct.cmeta(b)):
+            same_print = ct.cmeta(a) == ct.cmeta(b)
+            if same_print and not a == b:
+                return False
+            if strict and (a == b) and not same_print:
                 return False
     return True
 
 
 # ------------------------------------------------------------------------------------------ Coq side
-CASE_HEADER = ct.COQ_HEADER + "From Bermuda Require Import Model.Order Model.Basis Proofs.BasisCanon.\n"
+CASE_HEADER = ct.COQ_HEADER + "From Bermuda Require Import Model.Order Model.Basis Model.BasisPy Proofs.BasisCanon.\n"
 
 
 def case_term(case):
@@ -518,25 +648,29 @@ Definition d := std_desc.
 (* hypotheses of the whole-triangle theorems (Props/C04.v section 7) on the printed input *)
 Definition canon (t : list cell) : bool :=
   res_eqb (mk_triangle t) (Ok t) && comparableb t && meta_separatedb t.
-(* per case: [model(first op) == impl; model(second op)(impl first result) == impl second result; spec] *)
+(* per case: [model(first op) == impl; model(second op)(impl first result) == impl second result; spec;
+   identity; constructor-composed model].  The model is the one that groups by Python == (BasisPy):
+   the input is normalised to the first ==-metadata of each row, as tlz.groupby keeps it. *)
 Definition verdict (c : list cell * result (list cell) * result (list cell)) : list bool :=
   let '(t, r1, r2) := c in
+  let nt := py_normalise t in
   if is_incremental t then
-    [ res_eqb (to_cumulative d t) r1;
-      res_eqb (bind r1 (to_incremental d)) r2;
-      spec_inc t r1 r2;
-      res_eqb (to_incremental d t) (Ok t);
-      canon t && res_eqb (bind (to_cumulative d t) mk_triangle) r1
-      && res_eqb (bind r1 (fun c => bind (to_incremental d c) mk_triangle)) r2 ]
+    [ res_eqb (to_cumulative_py d t) r1;
+      res_eqb (bind r1 (to_incremental_py d)) r2;
+      spec_inc nt r1 r2;
+      res_eqb (to_incremental_py d t) (Ok t);
+      implb (canon t) (res_eqb (bind (to_cumulative d t) mk_triangle) r1
+                       && res_eqb (bind r1 (fun c => bind (to_incremental d c) mk_triangle)) r2) ]
   else
-    [ res_eqb (to_incremental d t) r1;
-      res_eqb (bind r1 (to_cumulative d)) r2;
-      spec_cum t r1 r2;
-      res_eqb (to_cumulative d t) (Ok t);
-      canon t && res_eqb (bind (to_incremental d t) mk_triangle) r1
-      && res_eqb (bind r1 (fun c => bind (to_cumulative d c) mk_triangle)) r2 ].
+    [ res_eqb (to_incremental_py d t) r1;
+      res_eqb (bind r1 (to_cumulative_py d)) r2;
+      spec_cum nt r1 r2;
+      res_eqb (to_cumulative_py d t) (Ok t);
+      implb (canon t) (res_eqb (bind (to_incremental d t) mk_triangle) r1
+                       && res_eqb (bind r1 (fun c => bind (to_cumulative d c) mk_triangle)) r2) ].
 Definition hyp (c : list cell * result (list cell) * result (list cell)) : nat :=
-  let '(t, _, _) := c in
+  let '(t0, _, _) := c in
+  let t := py_normalise t0 in
   if is_incremental t then (if inc_hyp t then 2 else if first_bad_is_broken (rows_of t) then 1 else 0)
   else (if cum_hyp true t then 3 else if cum_hyp false t then 2 else if first_bad_cum_is_keys (rows_of t) then 1 else 0).
 Definition vs := map verdict cases.
@@ -544,6 +678,7 @@ Eval vm_compute in (failing (map (fun v => nth 0 v false) vs), failing (map (fun
                     failing (map (fun v => nth 2 v false) vs), failing (map (fun v => nth 3 v false) vs),
                     failing (map (fun v => nth 4 v false) vs)).
 Eval vm_compute in map hyp cases.
+Eval vm_compute in failing (map (fun c => let '(t, _, _) := c in canon t) cases).
 """
 
 
@@ -588,11 +723,17 @@ def correspondence(ctx, cases, per_file):
     for f, kept in files:
         rc, out = res[f]
         vals = parse_coq_eval(out) if rc == 0 else []
-        if rc != 0 or len(vals) < 2:
+        if rc != 0 or len(vals) < 3:
             problems.append(("coqc-failed", None, f"{f.name}: {out[-800:]}"))
             continue
-        quad = parse_quad(vals[-2])
-        hyps = parse_nat_list(vals[-1])
+        quad = parse_quad(vals[-3])
+        hyps = parse_nat_list(vals[-2])
+        not_canon = set(parse_nat_list(vals[-1]))
+        for i in sorted(not_canon):
+            # only the stream with equal-but-distinct metadata objects may leave the hypotheses of section 7
+            if not kept[i]["label"].startswith("eqmeta"):
+                problems.append(("input is not canonical for Model/Order.mk_triangle (sorted, comparable, "
+                                 "==-metadata identical)", kept[i], 4))
         n += len(kept)
         for i, h in enumerate(hyps):
             kept[i]["hyp"] = h
@@ -607,6 +748,11 @@ def correspondence(ctx, cases, per_file):
 # ------------------------------------------------------------------------------------------ run / replay
 def case_data(case, extra=None):
     d = {"label": case["label"], "info": case["info"], "cells": [cell_to_json(c) for c in case["tri"].cells]}
+    if case.get("recipe"):
+        d["recipe"] = case["recipe"]
+        d["how_to_rebuild"] = ("old = Triangle(recipe.old); prehash (convert/slices/hash); tagged = "
+                               "old.derive_metadata(**recipe.defs); full = Triangle(tagged.cells + recipe.new with "
+                               "directly built equal Metadata); full.to_incremental()")
     if "r1" in case:
         d["impl_first"] = res_summary(case["r1"])
         d["impl_second"] = res_summary(case["r2"])
@@ -625,20 +771,29 @@ def oracles_for(case):
             r1 = run_impl(lambda: t.to_incremental())
             r2 = run_impl(lambda: r1[1].to_cumulative()) if r1[0] == "ok" else r1
         case["r1"], case["r2"] = r1, r2
-    bad = oracle_identity(t)
-    if case["label"].startswith("exotic"):
+    global PYMETA
+    PYMETA = case["label"].startswith(("eqmeta", "seq"))
+    try:
+        bad = oracle_identity(t)
+        if case["label"].startswith("exotic"):
+            return bad
+        if t.is_incremental:
+            bad += oracle_inc(t, case["r1"], case["r2"])
+        else:
+            bad += oracle_cum(t, case["r1"], case["r2"])
         return bad
-    if t.is_incremental:
-        bad += oracle_inc(t, case["r1"], case["r2"])
-    else:
-        bad += oracle_cum(t, case["r1"], case["r2"])
-    return bad
+    finally:
+        PYMETA = False
 
 
 def shrink(case, budget=400):
     """Greedy: drop cells while the direct oracles still complain (keeps replays small)."""
     from bermuda import Triangle
 
+    if case.get("recipe"):          # the failure may depend on object state built by the sequence
+        out = dict(case)
+        out["complaints"] = oracles_for(case)
+        return out
     cells = list(case["tri"].cells)
 
     def complains(trial):
@@ -705,7 +860,10 @@ def run(ctx):
         "irregular/single_period/single_lag/daily, values int/dyadic float/int64 array/float64 array/mixed per field, "
         "same_fields True/False, earned_premium present in ~60%; 30% malformed (one link removed, one link shifted, "
         "first prev != period_start-1, one cell with a different field set), 12% unusual values (None, array length "
-        "mismatch, length-1 arrays, scalar/array mix, int/float mix, duplicate cells, key order). Non-trivial = "
+        "mismatch, length-1 arrays, scalar/array mix, int/float mix, duplicate cells, key order); ~12% 'eqmeta': every "
+        "cell carries its own equal-but-distinct Metadata object (detail keys in another insertion order, 7 vs 7.0), "
+        "partly with a malformed chain; ~5% 'seq': hash/convert an old triangle, derive_metadata, append a valuation "
+        "with directly built equal Metadata, convert. Non-trivial = "
         "distinct canonical input with >= 2 cells or a refusal.")
     ctx.assumptions += [
         "harness prints value dicts with sorted keys; result key order (Python set iteration) is not modelled",
@@ -748,7 +906,7 @@ def _run(ctx):
     cases = [c for c in gen_cases(ctx, n_total)]
     keep = []
     for c in cases:
-        if not metadata_print_consistent(c["tri"]):
+        if not metadata_print_consistent(c["tri"], strict=not c["label"].startswith("eqmeta")):
             ctx.hist("skipped:metadata-eq-vs-print")
             continue
         keep.append(c)
@@ -811,8 +969,9 @@ def replay(ctx, data):
         return 1
     with warnings.catch_warnings():
         warnings.simplefilter("ignore")
-        t = Triangle([cell_from_json(j) for j in data["cells"]])
-    case = {"label": data.get("label", "replay"), "tri": t, "info": data.get("info", {}), "basis": "?"}
+        t = run_sequence(data["recipe"]) if data.get("recipe") else Triangle([cell_from_json(j) for j in data["cells"]])
+    case = {"label": data.get("label", "replay"), "tri": t, "info": data.get("info", {}), "basis": "?",
+            "recipe": data.get("recipe")}
     bad = oracles_for(case)
     print(f"input: {len(t.cells)} cells, incremental={t.is_incremental}; first conversion -> {res_summary(case['r1'])}, "
           f"second -> {res_summary(case['r2'])}")
